@@ -123,6 +123,8 @@ def main():
             __import__(m)
         except Exception:  # noqa: BLE001
             pass
+    if env.get("define_order"):
+        job["case"]["spec"] = {**job["case"]["spec"], "define_order": env["define_order"]}
     out = run(job["case"], full=job.get("full", False))
     out["_keep"] = len(keep)
     print("C08CHILD " + json.dumps(out))
